@@ -122,6 +122,9 @@ func (e *Env) Reset() {
 	e.pvcIdx.Replace(nil, "")
 	e.cursor = map[string]int{}
 	e.DrainQueue()
+	// the fake clientsets keep every action they were ever asked to perform: millions of scenarios later that is tens of GB
+	e.kc.ClearActions()
+	e.pc.ClearActions()
 }
 
 func (e *Env) DrainQueue() []string {
